@@ -18,9 +18,11 @@ def gen_case(rnd, tier: str, i: Any, **over: Any) -> Dict[str, Any]:
     first_step = gen_sim.pick_first_step(rnd, 3)
     n_steps = rnd.choice([0, 1, 1, 2, 2, 3, 3, 5])    # every rank carries the same step set
     files, truths = {}, {}
+    # launch APIs outside the short list the queue-length counters know by name (blocking cudaMemcpy, cudaGraphLaunch ...)
+    exotic = rnd.random() < 0.25
     for r in range(n_ranks):
         p = gen_sim.random_params(rnd, tier, rank=r, first_step=first_step, avoid_k1=True, n_steps=n_steps, p_zero_launch=rnd.choice([0.0, 0.0, 0.2]),
-                                  nested_driver=rnd.random() < 0.35)
+                                  nested_driver=rnd.random() < 0.35, exotic_launch=exotic)
         p.update(over)
         tr, truth = gen_sim.gen_trace_with_truth(rnd, **p)
         files[f"rank{r}.json"] = tr
